@@ -43,6 +43,9 @@ def run(eng, rep) -> None:
     rep.rule("R01.7", "no module-level mutable state is read-and-written on the codec path")
     rep.rule("R01.9", "no bound method object is tested for truth on the codec path (`type.is_signed` for `type.is_signed()` is always true)")
     rep.rule("R01.8", "container decoders obtain every element through the type dispatcher; a direct read is admissible only for element classes whose handler returns the raw word")
+    rep.rule("R01.10", "a key that stands for a schema type on the codec path reads every field that tells two types apart")
+    from .lints import type_identity_keys
+    type_identity_keys(eng, rep, "R01.10", ("fcp.serde",))
     rep.assume("Python integers are unbounded; struct.pack/unpack are exact for f32/f64; native struct format on a little-endian host")
     rep.assume("value plumbing (which datum goes with which transfer) beyond prefix/flag relations is not decided")
     cc = find_cursor_class(eng)
